@@ -433,11 +433,6 @@ def check(case):
             continue
         same = (got["out"] == ref["out"]) if ordered else (unordered_form(got["out"], toks) == unordered_form(ref["out"], toks))
         rnd = any(t.lower() in ("rand", "random") for t in toks)
-        # group rows without ORDER BY come in hash order, which differs from run to run: with a LIMIT the *set* of
-        # rows is not determined either (the parsed query has been compared above)
-        lows = [t.lower() for t in toks]
-        if "group" in lows and "limit" in lows and not ordered:
-            rnd = True
         if not same and not rnd:
             out.add(tag + "/rows-differ", canonical=canon_text, argv=argv)
             continue
